@@ -114,6 +114,7 @@ type Unit struct {
 	axiomsUsed   []string
 	fvCall       map[string]freeVarInfo
 	divs         []divRec
+	subOrigins   map[string]subOrigin
 	specFnsDone  map[string]bool
 	pkg        *packages.Package
 	errs       []string
@@ -130,7 +131,7 @@ func (u *Unit) note(s string) { u.notes[s] = true }
 func (p *Program) NewUnit(fn *ssa.Function, c *Contract) *Unit {
 	u := &Unit{prog: p, fn: fn, contract: c, ctx: NewCtx(), counters: map[string]int{}, mapSorts: map[string]Sort{},
 		entryVals: map[string]Val{}, paramTypes: map[string]types.Type{}, notes: map[string]bool{},
-		uncontractedCalls: map[string]bool{}, rawSorts: map[string]Sort{}, freeVarPtrs: map[string]freeVarInfo{}, externsUsed: map[string]bool{}, specFnsDone: map[string]bool{}, checks: map[string]bool{}}
+		uncontractedCalls: map[string]bool{}, subOrigins: map[string]subOrigin{}, rawSorts: map[string]Sort{}, freeVarPtrs: map[string]freeVarInfo{}, externsUsed: map[string]bool{}, specFnsDone: map[string]bool{}, checks: map[string]bool{}}
 	if fn != nil {
 		u.name = funcKey(fn)
 		if fn.Pkg != nil {
@@ -314,6 +315,13 @@ func (u *Unit) newFrame(fn *ssa.Function, parent *Frame) *Frame {
 	}
 	fr.loops, fr.loopOf, fr.headers = findLoops(fn)
 	fr.contract = u.prog.specs.Contracts[funcKey(fn)]
+	if fr.contract != nil {
+		for k := range fr.contract.Loops {
+			if k < 1 || k > len(fr.loops) {
+				unsupp("contract of %s has a clause for loop %d but the function has %d loops", funcKey(fn), k, len(fr.loops))
+			}
+		}
+	}
 	for _, li := range fr.loops {
 		if fr.contract != nil {
 			li.spec = fr.contract.Loops[li.ordinal]
